@@ -3,27 +3,61 @@ mod kit;
 
 use kit::report::{self, CheckSpec, RunFn, Tier};
 
-fn registry(prop: &str) -> Option<(CheckSpec, RunFn, fn(&serde_json::Value, &report::Violation) -> Vec<serde_json::Value>)> {
+type Cands = fn(&serde_json::Value, &report::Violation) -> Vec<serde_json::Value>;
+
+const CLUSTER_REAL: &[&str] = &["plan_distributed", "plan_gather", "execute_any_distributed", "scatter/merge/unify", "enumerate_parquet", "assign_lpt", "shard_context", "ShardedParquetTable", "execute_fragment", "encode_ipc/decode_ipc", "ExecutionContext::sql", "FragmentRequest serde"];
+const CLUSTER_STUB: &[&str] = &["HTTP framing and hyper (bypassed at the transport layer; the wire layer covers them)", "SimTransport replaces HttpTransport"];
+
+fn registry(prop: &str) -> Option<(CheckSpec, RunFn, Cands)> {
+    let base = |prop: &'static str, rule: &'static str, runs_quick: u64, runs_thorough: u64| CheckSpec {
+        prop,
+        engine: "cluster-sim",
+        level: "exploration",
+        rule,
+        runs_quick,
+        runs_thorough,
+        secs_quick: 50,
+        secs_thorough: 900,
+        gate_runs: 24,
+        real: CLUSTER_REAL,
+        stub: CLUSTER_STUB,
+        assumptions: &["the single-node answer over the same Parquet files is the oracle; a semantics bug shared by both sides is invisible by construction", "generated DOUBLE values are dyadic so sums are exact in any order", "one rayon worker: event histories and results replay exactly"],
+        expected_probes: &[],
+    };
     match prop {
-        "C09" => Some((
-            CheckSpec {
-                prop: "C09",
-                engine: "cluster-sim",
-                level: "exploration",
-                rule: "one run = one seeded world (1-3 generated tables, Parquet layout, 1-8 nodes with per-node copies under different mounts/listing orders) x 10 generated statements, each forced-distributed through the real coordinator over a simulated FragmentTransport and compared with the single-node answer; a case is non-trivial when the single node answered and the cluster did not refuse; distinct = distinct (merge shape, family, cluster size, fragments sent, statement text)",
-                runs_quick: 320,
-                runs_thorough: 20000,
-                secs_quick: 50,
-                secs_thorough: 900,
-                gate_runs: 24,
-                real: &["plan_distributed", "plan_gather", "execute_any_distributed", "scatter/merge/unify", "enumerate_parquet", "assign_lpt", "ShardedParquetTable", "execute_fragment", "encode_ipc/decode_ipc", "ExecutionContext::sql", "FragmentRequest serde"],
-                stub: &["HTTP framing and hyper (bypassed at this layer; the wire layer covers them)", "SimTransport replaces HttpTransport"],
-                assumptions: &["the single-node answer over the same Parquet files is the oracle; a semantics bug shared by both sides is invisible by construction", "generated DOUBLE values are dyadic so sums are exact in any order"],
-                expected_probes: &["idle_node", "empty_answer"],
-            },
-            cluster::runs::run_c09,
-            cluster::runs::shrink_candidates,
-        )),
+        "C09" => {
+            let mut s = base("C09", "one run = one seeded world (1-3 generated tables, Parquet layout, 1-8 nodes with per-node copies under different mounts/listing orders) x 10 generated statements, each forced-distributed through the real coordinator over a simulated FragmentTransport and compared with the single-node answer; a case is non-trivial when the single node answered and the cluster did not refuse; distinct = distinct (merge shape, family, cluster size, fragments sent, statement text)", 320, 20000);
+            s.expected_probes = &["idle_node", "empty_answer"];
+            Some((s, cluster::runs::run_c09, cluster::runs::shrink_candidates))
+        }
+        "C11" => {
+            let mut s = base("C11", "one run = one seeded world; for every table and node counts {1,2,3,random<=8,random<=64,64}: enumerate_parquet over node 0's files, checked against footers read independently by the harness (tiling of every non-empty row group, row and byte conservation), then re-enumerated over a permuted file list and over every other node's copy (different mount, own listing order): split lists and digests must be equal and map to the same files; a quarter of the worlds place same-named files in different directories; distinct = distinct (files, row-group size, rows, node count)", 400, 30000);
+            s.expected_probes = &["sub_row_group_splits", "equal_file_names"];
+            s.assumptions = &["footers are read by the harness with the parquet crate's SerializedFileReader, independently of the engine's metadata cache", "byte sizes up to 2^40 and zero-byte row groups with rows need synthetic inventories that enumerate_parquet (which takes paths) cannot be given: out of reach, stated"];
+            Some((s, cluster::splits::run_c11, cluster::runs::shrink_candidates))
+        }
+        "C13" => {
+            let mut s = base("C13", "one run = one seeded world x 6 statements (plain selects with projection/filter, and COUNT(*) with the same filters); for a seeded N in 1..8 every shard index gets the shard context the coordinator would build, on the node that would own it; the multiset union (or count sum) over shards must equal the unsharded statement; each shard must hide its files and COUNT(*) over it must equal its assigned rows; distinct = distinct (statement, N, row-group size)", 320, 20000);
+            s.expected_probes = &["empty_shard", "filtered_shard_scan"];
+            Some((s, cluster::splits::run_c13, cluster::runs::shrink_candidates))
+        }
+        "C10" => {
+            let mut s = base("C10", "one run = one seeded world (2-6 nodes) x 8 statements; each statement is first executed fault-free (recording every fragment reply), then re-executed with 1-3 seeded faults on its remote fragments (transport errors of six kinds, truncation at a fraction / a few bytes before the end / exactly before the end-of-stream marker, single-bit flips, forged digest, duplicated request, delay up to 900 simulated seconds); one run in eight additionally re-delivers one recorded reply cut at EVERY byte offset through the real coordinator with a canned responder; a case is non-trivial when at least one fault fired; distinct = distinct (shape, fired fault kinds, family, statement)", 320, 12000);
+            s.level = "fault_enumeration";
+            s.expected_probes = &["reply_fully_enumerated", "truncated_inside_eos_marker"];
+            s.stub = &["HTTP framing and hyper (bypassed at the transport layer)", "SimTransport replaces HttpTransport", "during offset enumeration remote nodes are replaced by a canned responder serving bytes recorded from the real execute_fragment+encode_ipc"];
+            Some((s, cluster::faults::run_c10, cluster::runs::shrink_candidates))
+        }
+        "C14" => {
+            let mut s = base("C14", "one run = one seeded world (2-4 nodes); one worker's copy of one table is rewritten with exactly one divergence (renamed file, row-group size, dropped row, added row, re-encoding, extra file, missing file, same layout other values); whether the divergence is split-relevant is decided from footers the harness reads itself; fragments with the initiator's digest are sent to the divergent copy and to an identical copy for shard indices in range, = count and far beyond, for four cluster sizes, and 4 scatter statements run through the coordinator with the divergent worker in the cluster; distinct = distinct (divergence kind, family, fragments served by the divergent worker, row-group size, statement)", 320, 12000);
+            s.expected_probes = &["out_of_range_refused", "divergent_worker_idle"];
+            Some((s, cluster::faults::run_c14, cluster::runs::shrink_candidates))
+        }
+        "C45" => {
+            let mut s = base("C45", "one run = one seeded multi-table world (same-named columns across tables) x 10 statements from the families the exact planner refuses (subqueries in WHERE and SELECT, CTEs, set operations, DISTINCT, self-joins, windows, joins); statements that plan_distributed accepts are skipped; the gathered run's class and rows must equal the single-node run's; the per-table gathered column lists are attached to a failure as a diagnostic; distinct = distinct (family, cluster size, gathered column lists, statement)", 320, 20000);
+            s.expected_probes = &["multi_table_gather", "pruned_gather"];
+            Some((s, cluster::faults::run_c45, cluster::runs::shrink_candidates))
+        }
         _ => None,
     }
 }
@@ -46,6 +80,11 @@ fn main() {
             std::process::exit(report::check_main(&spec, tier));
         }
         "worker" => {
+            // panics inside the engine are outcomes the simulators record; keep stderr short
+            std::panic::set_hook(Box::new(|info| {
+                let loc = info.location().map(|l| format!("{}:{}", l.file(), l.line())).unwrap_or_default();
+                eprintln!("[panic] {loc}");
+            }));
             let tier = Tier::parse(&args[3]);
             let p = |i: usize| args[i].parse::<u64>().expect("numeric worker arg");
             report::worker_main(&spec, run, cands, tier, p(4), p(5), p(6), p(7), p(8));
